@@ -44,6 +44,24 @@ func (c *Ctx) compareFuncs() (cmp *ssa.Function, cmps, compares, ases []*ssa.Fun
 	return
 }
 
+// compareFormC: Compare calls Cmp itself (no compare helper in between): `if isNumber(a) && isNumber(b) { return
+// Cmp(As[float64](a), b) }; return strings.Compare(text(a), text(b))`.
+func (c *Ctx) compareFormC() bool {
+	cmp, _, compares, _ := c.compareFuncs()
+	if cmp == nil || len(compares) > 0 {
+		return false
+	}
+	direct := false
+	allInstrs(cmp, func(_ *ssa.BasicBlock, in ssa.Instruction) {
+		if call, ok := in.(*ssa.Call); ok {
+			if cal := call.Common().StaticCallee(); cal != nil && cal.Origin() != nil && cal.Origin().Name() == "Cmp" && funcPkgPath(cal) == comparePath {
+				direct = true
+			}
+		}
+	})
+	return direct
+}
+
 func instKey(p *Program, f *ssa.Function) string {
 	s := p.funcKey(f)
 	return s
@@ -59,7 +77,7 @@ func ruleC15Range(c *Ctx) {
 		return
 	}
 	cmp, cmps, compares, _ := c.compareFuncs()
-	if cmp == nil || len(cmps) == 0 || len(compares) == 0 {
+	if cmp == nil || len(cmps) == 0 || len(compares) == 0 && !c.compareFormC() {
 		c.Unknown("c15.range", "compare.Compare", "-", fmt.Sprintf("anchor lost: Compare=%v Cmp instances=%d compare instances=%d", cmp != nil, len(cmps), len(compares)))
 		return
 	}
@@ -299,7 +317,10 @@ func ruleC15ExactDomain(c *Ctx) {
 		c.Check(ok, "c15.exact-domain", key, c.P.Pos(f.Pos()), fmt.Sprintf("T=%s compared in D=%s; every S->D exact", T, D), why)
 	}
 	// a caller that converts the LEFT operand itself before handing it to Cmp (Cmp(As[X](a), v)): every arm of As[X] exact too
-	_, _, comparesX, _ := c.compareFuncs()
+	cmpX, _, comparesX, _ := c.compareFuncs()
+	if c.compareFormC() {
+		comparesX = append(comparesX, cmpX)
+	}
 	for _, f := range comparesX {
 		allInstrs(f, func(_ *ssa.BasicBlock, in ssa.Instruction) {
 			call, isC := in.(*ssa.Call)
@@ -360,6 +381,8 @@ func ruleC15Dispatch(c *Ctx) {
 	}
 	a, b := cmp.Params[0].Name(), cmp.Params[1].Name()
 	seenT := map[string]bool{}
+	seenB := map[string]bool{}
+	formC := c.compareFormC()
 	ok, why := true, ""
 	sawDefault := false
 	for _, p := range paths {
@@ -404,8 +427,46 @@ func ruleC15Dispatch(c *Ctx) {
 				}
 				continue
 			}
+			if cal != nil && cal.Origin() != nil && cal.Origin().Name() == "Cmp" && formC {
+				// Compare converts its left operand on the spot and hands the right one over as it is; both operands
+				// were found to be numbers on this path (the numeric types are the ones the path asserted)
+				left := false
+				if len(t.Args) == 2 {
+					if as, isAs := callArgs(t.Args[0], "As"); isAs && len(as) == 1 && as[0].Op == "param" && as[0].Name == a {
+						left = true
+					} else if t.Args[0].Op == "call" && strings.Contains(t.Args[0].Name, "As[") && len(t.Args[0].Args) == 1 && t.Args[0].Args[0].Op == "param" && t.Args[0].Args[0].Name == a {
+						left = true
+					}
+				}
+				right := len(t.Args) == 2 && t.Args[1].Op == "param" && t.Args[1].Name == b
+				if !(left && right) {
+					ok, why = false, "numeric arm does not forward (a converted, b) in order and as they are: "+t.String()
+				}
+				bNumeric := false
+				for _, k := range p.Order {
+					kt := p.KeyTerm[k]
+					if kt != nil && kt.Op == "ext" && kt.Name == "1" && kt.Args[0].Op == "assertok" && kt.Args[0].Args[0].Op == "param" {
+						if v, _ := p.Assumed(k); v {
+							if kt.Args[0].Args[0].Name == a {
+								seenT[kt.Args[0].Name] = true
+							}
+							if kt.Args[0].Args[0].Name == b && kt.Args[0].Name != "string" {
+								seenB[kt.Args[0].Name] = true
+								bNumeric = true
+							}
+						}
+					}
+				}
+				if !bNumeric {
+					ok, why = false, "a path hands b to the numeric comparison without having found it to be a number (a string then compares as 0 on one side and as text on the other)"
+				}
+				continue
+			}
 		}
 		ok, why = false, "a path returns "+t.String()
+	}
+	if formC && len(seenB) < 12 {
+		ok, why = false, why+fmt.Sprintf(" only %d numeric types of the right operand reach the numeric comparison", len(seenB))
 	}
 	if len(seenT) < 12 {
 		ok, why = false, why+fmt.Sprintf(" only %d numeric types dispatched", len(seenT))
